@@ -191,7 +191,8 @@ def gitignored_paths(folder_io, file_io):
         if not l or l.startswith(b'#') or l.startswith(b'!') or b'*' in l:
             continue
 
-        p = l.decode('utf-8', 'ignore').rstrip('/')
+        # Git ignores trailing spaces.
+        p = l.decode('utf-8', 'ignore').rstrip(' ').rstrip('/')
         if '/' in p:
             name = p.lstrip('/')
             ignored_paths_abs.add(os.path.join(folder_io.path, name))
